@@ -54,7 +54,7 @@ def dist_point_triangle(p, t):
     if s(t[0], t[1]) >= 0 and s(t[1], t[2]) >= 0 and s(t[2], t[0]) >= 0: return abs(h)
     return min(dist_point_segment(p, t[0], t[1]), dist_point_segment(p, t[1], t[2]), dist_point_segment(p, t[2], t[0]))
 
-def point_for(rng, t, margin=0.05):
+def point_for(rng, t, margin=0.05, perturb=True):
     """evaluation point: 'off' = >= margin*size off the plane (over or near the triangle), 'inplane' = in the plane,
     >= margin*size away from the triangle, 'far' = a few sizes away.  -> (point, kind)"""
     size = tri_size(t); n = tri_normal(t)
@@ -72,7 +72,8 @@ def point_for(rng, t, margin=0.05):
             k = rng.randrange(3); a, b = t[k], t[(k + 1) % 3]
             s = rng.choice([rng.uniform(-1.5, -margin * 1.5), rng.uniform(1 + margin * 1.5, 2.5)])
             p = add(a, mul(s, sub(b, a)))
-            if rng.random() < 0.5: p = add(p, mul(rng.uniform(-1e-9, 1e-9) * size, n))
+            # (outside the property's domain: neither >= 5 % off the plane nor in it -- correspondence only)
+            if perturb and rng.random() < 0.5: p = add(p, mul(rng.uniform(-1e-9, 1e-9) * size, n))
         else:
             p = add(base, mul(rng.uniform(1.0, 4.0) * size * rng.choice([-1, 1]), random_frame(rng)[0]))
         if dist_point_triangle(p, t) >= margin * size:
